@@ -25,6 +25,7 @@ def run(ctx):
                        keyfn=lambda rec, clause: "CoordTree%dD:%s" % (rec["dim"], clause))
     import c08_tris
     c08_tris.run(ctx)
+    __import__("c08_accel2").run(ctx)  # the 2-D accelerators and the grouping routines against the linear scan
     # hierarchies of render objects (binary and wider, nested joins): nearest hit = brute force over the parts
     from props import C20
     C20.scene_stage(ctx)
